@@ -2,7 +2,8 @@
 PewModel/Sync.lean.  The Lean specification `render` writes the abstract log rows, the sample times and
 the delay of a rastered acquisition and `truth` is its ground-truth image; the Lean mechanism `sync` is
 run on the rendered log.  Python only formats the rows as a real NWI CSV file, builds the numpy signal,
-runs pewlib and canonicalises."""
+runs pewlib and canonicalises.  Theorem `sync_render` (PewTheorems/C08.lean) proves model = spec on every
+acquisition with `truthHyp` (reported here as `hyp`); the comparison below ties the implementation to both."""
 import copy
 import datetime
 import math
